@@ -474,13 +474,15 @@ class SolverActor:
         self.world.fired["evolvent_query_" + q] += 1
         if q == "setbounds_same":
             # re-stating the box the evolvent already has (a harmless call: nothing may change)
-            ev.SetBounds(np.array(self.lower, dtype=np.double), np.array(self.upper, dtype=np.double))
+            lo_, up_ = getattr(self, "ev_box", None) or (self.lower, self.upper)
+            ev.SetBounds(np.array(lo_, dtype=np.double), np.array(up_, dtype=np.double))
             self.world.log("evq", self.aid, "setbounds_same")
             return None
         if q == "setbounds_inner":
             # the user narrows the box of THIS solver's evolvent (a public call; whatever it does to this solver's own
             # search, it must not reach any other solver - not even one built on the same Problem object)
             ev.SetBounds(np.array(op["lower"], dtype=np.double), np.array(op["upper"], dtype=np.double))
+            self.ev_box = (list(op["lower"]), list(op["upper"]))      # (what "re-stating the box" means from now on)
             self.world.log("evq", self.aid, "setbounds_inner")
             return None
         if q == "image":
